@@ -760,9 +760,31 @@ class _OriginDomain(Domain):
             if isinstance(c, ast.Call) and isinstance(c.func, ast.Name) and \
                     c.func.id == 'setattr' and len(c.args) == 3 and \
                     isinstance(c.args[0], ast.Name):
-                self.sites.append((stmt, c.args[0].id, 'setattr',
-                                   st.env.get(c.args[0].id, 'foreign')))
+                for nm in _setattr_names(self.model, self.fi, c):
+                    if nm in ('guarded_getattr', 'guarded_getitem'):
+                        self.sites.append((stmt, c.args[0].id, nm,
+                                           st.env.get(c.args[0].id,
+                                                      'foreign')))
         return st
+
+
+def _setattr_names(model, fi, call):
+    """The attribute names a setattr(obj, NAME, value) call may set: a
+    constant, or a loop variable over a constant tuple of names."""
+    a = call.args[1]
+    ok, v = model.fold(a, fi)
+    if ok and isinstance(v, str):
+        return [v]
+    if isinstance(a, ast.Name):
+        for anc in ancestors(call):
+            if isinstance(anc, ast.For) and any(
+                    isinstance(x, ast.Name) and x.id == a.id
+                    for x in ast.walk(anc.target)):
+                ok, v = model.fold(anc.iter, fi)
+                if ok and isinstance(v, (tuple, list)) and all(
+                        isinstance(x, str) for x in v):
+                    return list(v)
+    return []
 
 
 def rule_guard_owner(model):
@@ -781,18 +803,17 @@ def rule_guard_owner(model):
                      for x in own_nodes(fi.node))
         via_setattr = any(
             isinstance(c, ast.Call) and isinstance(c.func, ast.Name)
-            and c.func.id == 'setattr' and len(c.args) == 3
-            for c in own_nodes(fi.node)) and \
-            'guarded_getattr' in ast.unparse(fi.node)
+            and c.func.id == 'setattr' and len(c.args) == 3 and
+            {'guarded_getattr', 'guarded_getitem'} &
+            set(_setattr_names(model, fi, c))
+            for c in own_nodes(fi.node))
         if not direct and not via_setattr:
             continue
         dom = _OriginDomain(model, fi)
         Interp(dom).run(fi.node, _OS())
         seen = set()
         for node, var, attr, origin in dom.sites:
-            if attr == 'setattr' and 'guarded' not in ast.unparse(fi.node):
-                continue
-            k = (id(node), origin)
+            k = (id(node), attr, origin)
             if k in seen:
                 continue
             seen.add(k)
